@@ -1,8 +1,292 @@
-(* Props/C07.v -- placeholder while the correspondence is being brought up *)
+(* Props/C07.v -- Body size limits are enforced and streamed bodies are relayed exactly.
+   Statements only; each is closed by [exact] of a lemma proved in Proofs/HttpBody*.v.
+   All theorems are about Model/HttpBody.v, the model the correspondence check runs: S, fq, fs are the state and the
+   two stream callables (arbitrary state-passing functions), cfg the options / addon policy / connectability.
+   The model describes the code with fixes/C07-empty-chunk.diff applied.
+   Findings: (fixed) a zero-length data event on a chunked message was written as the last-chunk
+   -- C07_empty_chunk_unrepaired_refuted is the witness on the unrepaired encoding, C07_wire_chunked_decodes the
+   theorem for the repaired one; (known) no error response after 100 Continue -- C07_client_error_refuted +
+   C07_client_error_partial, whose guard (no response recorded on the client connection) is the complement. *)
 From Coq Require Import List Bool NArith ZArith.
-From MV Require Import Base.Bytes Model.HttpBody.
+From MV Require Import Base.Bytes Model.Http1Msg Model.Rfc9112 Model.HttpBody.
+From MV Require Import Proofs.HttpBodyBase Proofs.HttpBodyLimit Proofs.HttpBodySteps Proofs.HttpBodyBound.
+From MV Require Import Proofs.HttpBodyForward Proofs.HttpBodyRelay Proofs.HttpBodyWire.
 Import ListNotations.
+Open Scope Z_scope.
 
-Theorem C07_nonvacuous : parse_size (Some [x31; x6b]) = PVal 1024%Z.
-Proof. reflexivity. Qed.
+(* ---- (1) memory bound.  For every history of events from the initial state (every prefix of a history is a
+   history, so this is every reachable state): with body_size_limit = L >= 0, a body that is being buffered never
+   exceeds L after the event has been handled; no buffer ever exceeds L plus the largest chunk received; a streamed
+   body is not buffered at all.  The only bytes outside the bound are those kept on request by
+   store_streamed_bodies, hence the hypothesis o_store = false on those clauses. *)
+Theorem C07_buffer_bound :
+  forall (S : Type) (fq fs : S -> bytes -> S * sres) (cfg : config) (L : Z),
+  parse_size (o_limit cfg) = PVal L -> 0 <= L ->
+  forall (q0 s0 : S) (evs : list event) (s : st S) (out : list cmd) (cr : bool),
+  run S fq fs cfg (init S q0 s0) evs = (s, out, cr) ->
+  (client_state s = Consume -> blen (request_body_buf s) <= L)
+  /\ (server_state s = Consume -> blen (response_body_buf s) <= L)
+  /\ (o_store cfg = false ->
+      blen (request_body_buf s) <= L + max_req evs /\ blen (response_body_buf s) <= L + max_resp evs)
+  /\ (o_store cfg = false -> client_state s = Streaming -> request_body_buf s = [])
+  /\ (o_store cfg = false -> server_state s = Streaming -> response_body_buf s = [])
+  /\ (client_state s = WaitHeaders \/ client_state s = Done -> request_body_buf s = [])
+  /\ (server_state s = WaitHeaders \/ server_state s = Done -> response_body_buf s = []).
+Proof. exact buffer_bound. Qed.
+Print Assumptions C07_buffer_bound.
+
+(* ---- (2) a body known to exceed the limit is rejected: error hook, error to the client, stream errored *)
+Theorem C07_early_reject_request :
+  forall (S : Type) (fq fs : S -> bytes -> S * sres) (cfg : config) (L : Z),
+  parse_size (o_limit cfg) = PVal L ->
+  forall (s : st S) (n : Z) (e100 : bool),
+  client_state s = WaitHeaders -> request_body_buf s = [] -> 0 < n -> L < n ->
+  exists s', handle_event S fq fs cfg s (ReqHeaders (FLen n) e100)
+             = Some (s', [CHook HRequestHeaders; CHook HError; CSend Client (MErr ReqTooLarge)])
+    /\ client_state s' = Errored /\ flow_error s' = true /\ flow_live s' = false
+    /\ request_body_buf s' = [].
+Proof. exact early_reject_request. Qed.
+Print Assumptions C07_early_reject_request.
+
+Theorem C07_late_reject_request :
+  forall (S : Type) (fq fs : S -> bytes -> S * sres) (cfg : config) (L : Z),
+  parse_size (o_limit cfg) = PVal L ->
+  forall (s : st S) (d : bytes),
+  client_state s = Consume -> 0 <= L -> L < blen (request_body_buf s ++ d) ->
+  exists s', handle_event S fq fs cfg s (ReqData d) = Some (s', [CHook HError; CSend Client (MErr ReqTooLarge)])
+    /\ client_state s' = Errored /\ flow_error s' = true /\ flow_live s' = false
+    /\ request_body_buf s' = request_body_buf s ++ d.
+Proof. exact late_reject_request. Qed.
+Print Assumptions C07_late_reject_request.
+
+Theorem C07_early_reject_response :
+  forall (S : Type) (fq fs : S -> bytes -> S * sres) (cfg : config) (L : Z),
+  parse_size (o_limit cfg) = PVal L ->
+  forall (s : st S) (n : Z),
+  server_state s = WaitHeaders -> response_body_buf s = [] -> 0 < n -> L < n ->
+  exists s', handle_event S fq fs cfg s (RespHeaders (FLen n))
+             = Some (s', [CHook HResponseHeaders; CHook HError; CSend Client (MErr RespTooLarge);
+                          CSend Server (MErr RespTooLarge)])
+    /\ client_state s' = Errored /\ server_state s' = Errored
+    /\ flow_error s' = true /\ flow_live s' = false.
+Proof. exact early_reject_response. Qed.
+Print Assumptions C07_early_reject_response.
+
+Theorem C07_late_reject_response :
+  forall (S : Type) (fq fs : S -> bytes -> S * sres) (cfg : config) (L : Z),
+  parse_size (o_limit cfg) = PVal L ->
+  forall (s : st S) (d : bytes),
+  server_state s = Consume -> 0 <= L -> L < blen (response_body_buf s ++ d) ->
+  exists s', handle_event S fq fs cfg s (RespData d)
+             = Some (s', [CHook HError; CSend Client (MErr RespTooLarge); CSend Server (MErr RespTooLarge)])
+    /\ client_state s' = Errored /\ server_state s' = Errored
+    /\ flow_error s' = true /\ flow_live s' = false
+    /\ response_body_buf s' = response_body_buf s ++ d.
+Proof. exact late_reject_response. Qed.
+Print Assumptions C07_late_reject_response.
+
+(* after the decision the request side swallows every event: no RequestData is forwarded *)
+Theorem C07_rejected_stream_silent :
+  forall (S : Type) (fq fs : S -> bytes -> S * sres) (cfg : config) (s : st S) (e : event),
+  client_state s = Errored -> is_request_event e = true -> handle_event S fq fs cfg s e = Some (s, []).
+Proof. exact step_request_errored. Qed.
+Print Assumptions C07_rejected_stream_silent.
+
+(* in every history, with any options: if the request was rejected for its size then no request head, data or
+   end-of-message was sent to the server at any time, before or after the decision *)
+Theorem C07_rejected_request_never_forwarded :
+  forall (S : Type) (fq fs : S -> bytes -> S * sres) (cfg : config) (q0 s0 : S) (evs : list event)
+         (s : st S) (out : list cmd) (cr : bool),
+  run S fq fs cfg (init S q0 s0) evs = (s, out, cr) ->
+  In (CSend Client (MErr ReqTooLarge)) out -> server_content out = [] /\ client_state s = Errored.
+Proof. exact rejected_request_never_forwarded. Qed.
+Print Assumptions C07_rejected_request_never_forwarded.
+
+Theorem C07_rejected_response_never_forwarded :
+  forall (S : Type) (fq fs : S -> bytes -> S * sres) (cfg : config) (q0 s0 : S) (evs : list event)
+         (s : st S) (out : list cmd) (cr : bool),
+  run S fq fs cfg (init S q0 s0) evs = (s, out, cr) ->
+  In (CSend Client (MErr RespTooLarge)) out ->
+  client_content out = [] /\ server_state s = Errored /\ client_state s = Errored.
+Proof. exact rejected_response_never_forwarded. Qed.
+Print Assumptions C07_rejected_response_never_forwarded.
+
+Theorem C07_buffering_forwards_nothing :
+  forall (S : Type) (fq fs : S -> bytes -> S * sres) (cfg : config) (q0 s0 : S) (evs : list event)
+         (s : st S) (out : list cmd) (cr : bool),
+  run S fq fs cfg (init S q0 s0) evs = (s, out, cr) ->
+  (client_state s = Consume -> server_content out = [])
+  /\ (server_state s = Consume -> client_content out = []).
+Proof. exact buffering_forwards_nothing. Qed.
+Print Assumptions C07_buffering_forwards_nothing.
+
+(* ---- (3) streamed bodies.  From any state in which the request is being streamed, for every list of received
+   chunks: the data events sent to the server are, in order, the chunks the callable returns for each received
+   chunk and for the final b"" (or the received chunks themselves when stream is True); the end of message follows
+   them; the flow keeps exactly those bytes iff store_streamed_bodies. *)
+Theorem C07_stream_request_relay :
+  forall (S : Type) (fq fs : S -> bytes -> S * sres) (cfg : config) (ds : list bytes)
+         ss qb sb qf sf qs rs q1 q2 qc sc er lv,
+  let s := mkSt Streaming ss qb sb qf sf qs rs q1 q2 qc sc er lv in
+  let pieces := expected_pieces S qs fq q1 ds in
+  exists s' out,
+    run S fq fs cfg s (map ReqData ds ++ [ReqEom]) = (s', out, false)
+    /\ data_to Server out = pieces
+    /\ server_content out = map (fun c => CSend Server (MData c)) pieces ++ [CSend Server MEom]
+    /\ client_state s' = Done
+    /\ req_content s' = (if o_store cfg then Some (qb ++ concat pieces) else qc)
+    /\ request_body_buf s' = (if o_store cfg then [] else qb).
+Proof. exact stream_request_relay. Qed.
+Print Assumptions C07_stream_request_relay.
+
+Theorem C07_stream_response_relay :
+  forall (S : Type) (fq fs : S -> bytes -> S * sres) (cfg : config) (ds : list bytes)
+         cs qb sb qf sf qs rs q1 q2 qc sc er lv,
+  let s := mkSt cs Streaming qb sb qf sf qs rs q1 q2 qc sc er lv in
+  let pieces := expected_pieces S rs fs q2 ds in
+  exists s' out,
+    run S fq fs cfg s (map RespData ds ++ [RespEom]) = (s', out, false)
+    /\ data_to Client out = pieces
+    /\ client_content out = map (fun c => CSend Client (MData c)) pieces
+                             ++ (if hstate_eqb cs Done then [CSend Client MEom] else [])
+    /\ server_state s' = Done
+    /\ resp_content s' = (if o_store cfg then Some (sb ++ concat pieces) else sc)
+    /\ response_body_buf s' = (if o_store cfg then [] else sb).
+Proof. exact stream_response_relay. Qed.
+Print Assumptions C07_stream_response_relay.
+
+(* relayed without buffering: the commands of one data event are exactly the callable's chunks for that event *)
+Theorem C07_stream_request_immediate :
+  forall (S : Type) (fq fs : S -> bytes -> S * sres) (cfg : config) (s : st S) (d : bytes),
+  client_state s = Streaming ->
+  let pieces := match req_stream s with SCall => data_chunks (snd (fq (fq_st s) d)) | _ => [d] end in
+  exists s', handle_event S fq fs cfg s (ReqData d) = Some (s', map (fun c => CSend Server (MData c)) pieces)
+    /\ client_state s' = Streaming
+    /\ request_body_buf s' = (if o_store cfg then request_body_buf s ++ concat pieces else request_body_buf s).
+Proof. exact stream_request_immediate. Qed.
+Print Assumptions C07_stream_request_immediate.
+
+Theorem C07_stream_response_immediate :
+  forall (S : Type) (fq fs : S -> bytes -> S * sres) (cfg : config) (s : st S) (d : bytes),
+  server_state s = Streaming ->
+  let pieces := match resp_stream s with SCall => data_chunks (snd (fs (fs_st s) d)) | _ => [d] end in
+  exists s', handle_event S fq fs cfg s (RespData d) = Some (s', map (fun c => CSend Client (MData c)) pieces)
+    /\ server_state s' = Streaming
+    /\ response_body_buf s' = (if o_store cfg then response_body_buf s ++ concat pieces else response_body_buf s).
+Proof. exact stream_response_immediate. Qed.
+Print Assumptions C07_stream_response_immediate.
+
+(* the late switch (stream_large_bodies exceeded while buffering): connect, head, then everything buffered as one
+   data event; the buffer is cleared first, so nothing is duplicated *)
+Theorem C07_late_switch_request :
+  forall (S : Type) (fq fs : S -> bytes -> S * sres) (cfg : config) (s : st S) (d : bytes) (T : Z),
+  client_state s = Consume -> c_ok cfg = true ->
+  parse_size (o_stream cfg) = PVal T -> 0 <= T -> T < blen (request_body_buf s ++ d) ->
+  parse_size (o_limit cfg) <> PErr -> over (parse_size (o_limit cfg)) (blen (request_body_buf s ++ d)) = false ->
+  exists s', handle_event S fq fs cfg s (ReqData d)
+             = Some (s', [CGetConn; CSend Server (MHeaders false); CSend Server (MData (request_body_buf s ++ d))])
+    /\ client_state s' = Streaming /\ req_stream s' = STrue
+    /\ request_body_buf s' = (if o_store cfg then request_body_buf s ++ d else []).
+Proof. exact late_switch_request. Qed.
+Print Assumptions C07_late_switch_request.
+
+(* a whole chunked request from the initial state with an addon installing a callable, any size options *)
+Theorem C07_stream_request_end_to_end :
+  forall (S : Type) (fq fs : S -> bytes -> S * sres) (cfg : config) (q0 s0 : S) (e100 : bool) (ds : list bytes),
+  p_req cfg = Some SCall -> c_ok cfg = true ->
+  let pieces := transformed S fq q0 ds in
+  exists s' out,
+    run S fq fs cfg (init S q0 s0) (ReqHeaders FChunked e100 :: map ReqData ds ++ [ReqEom]) = (s', out, false)
+    /\ data_to Server out = pieces
+    /\ server_content out = CSend Server (MHeaders false)
+                             :: map (fun c => CSend Server (MData c)) pieces ++ [CSend Server MEom]
+    /\ client_state s' = Done
+    /\ req_content s' = (if o_store cfg then Some (concat pieces) else None)
+    /\ request_body_buf s' = [].
+Proof. exact stream_request_end_to_end. Qed.
+Print Assumptions C07_stream_request_end_to_end.
+
+(* ---- on the wire (Http1Client.send / Http1Server.send).  For every list of data events, empty ones included, what
+   is written for a chunked message is read back by the RFC 9112 reference decoder as the concatenation of the data,
+   with nothing left over *)
+Theorem C07_wire_chunked_decodes :
+  forall (o : ref_opts) (pieces : list bytes) (rest : bytes),
+  read_body o BLChunked (wire_chunks send_data pieces ++ rest) = POk (concat pieces, [], rest).
+Proof. exact wire_chunked_decodes. Qed.
+Print Assumptions C07_wire_chunked_decodes.
+
+Theorem C07_wire_request_stream_decodes :
+  forall (S : Type) (cfg : config) (w : wst S) (pieces : list bytes) (o : ref_opts) (rest : bytes),
+  req_framing (hs S w) = FChunked ->
+  let '(w1, t1) := exec_cmds S cfg w (map (fun c => CSend Server (MData c)) pieces) in
+  let '(w2, t2) := exec_cmd S cfg w1 (CSend Server MEom) in
+  read_body o BLChunked (sent_to Server (t1 ++ t2) ++ rest) = POk (concat pieces, [], rest).
+Proof. exact wire_request_stream_decodes. Qed.
+Print Assumptions C07_wire_request_stream_decodes.
+
+Theorem C07_wire_response_stream_decodes :
+  forall (S : Type) (cfg : config) (w : wst S) (pieces : list bytes) (o : ref_opts) (rest : bytes),
+  resp_fr S w = FChunked ->
+  let '(w1, t1) := exec_cmds S cfg w (map (fun c => CSend Client (MData c)) pieces) in
+  let '(w2, t2) := exec_cmd S cfg w1 (CSend Client MEom) in
+  read_body o BLChunked (sent_to Client (t1 ++ t2) ++ rest) = POk (concat pieces, [], rest).
+Proof. exact wire_response_stream_decodes. Qed.
+Print Assumptions C07_wire_response_stream_decodes.
+
+(* the defect repaired by fixes/C07-empty-chunk.diff, on the unrepaired encoding: the data events [b""; b"defg"]
+   are read back as an empty body and the second chunk is left over as the start of another message *)
+Theorem C07_empty_chunk_unrepaired_refuted :
+  exists pieces body rest,
+    read_body (mkOpts false false false) BLChunked (wire_chunks send_data_unrepaired pieces) = POk (body, [], rest)
+    /\ body <> concat pieces /\ rest <> [].
+Proof. exact wire_unrepaired_empty_chunk. Qed.
+Print Assumptions C07_empty_chunk_unrepaired_refuted.
+
+(* ---- the client receives an error.  Full statement is false (known finding no-error-response-after-100-continue):
+   a chunked request with Expect: 100-continue that outgrows the limit is closed without any error response *)
+Theorem C07_client_error_refuted :
+  exists cfg steps trace bufs w,
+    wrun unit (fun q _ => (q, RB [])) (fun q _ => (q, RB [])) cfg (winit unit tt tt) steps = (trace, bufs, w, false)
+    /\ In (THook HError) trace /\ flow_error (hs unit w) = true
+    /\ In (TClose Client) trace
+    /\ (forall z, ~ In (TErrPage z) trace).
+Proof. exact client_error_after_continue_refuted. Qed.
+Print Assumptions C07_client_error_refuted.
+
+(* ... and holds whenever no response is recorded on the client connection (no 100 Continue, no response head) *)
+Theorem C07_client_error_partial :
+  forall (S : Type) (cfg : config) (w : wst S) (code : errcode),
+  client_open S w = true -> srv_response S w = SrNone ->
+  exists w', exec_cmd S cfg w (CSend Client (MErr code)) = (w', [TErrPage (status_of code); TClose Client])
+             /\ client_open S w' = false.
+Proof. exact client_error_response. Qed.
+Print Assumptions C07_client_error_partial.
+
+(* end to end, early case, on the wire: 413 and close, nothing opened towards the server *)
+Theorem C07_wire_early_reject :
+  forall (S : Type) (fq fs : S -> bytes -> S * sres) (cfg : config) (q0 s0 : S) (L n : Z) (e100 : bool),
+  parse_size (o_limit cfg) = PVal L -> 0 < n -> L < n ->
+  exists w', wstep S fq fs cfg (winit S q0 s0) (WReqHead (FLen n) e100)
+             = Some (w', [THook HRequestHeaders; THook HError; TErrPage 413; TClose Client])
+    /\ client_open S w' = false /\ server_conn S w' = None
+    /\ flow_error (hs S w') = true /\ flow_live (hs S w') = false.
+Proof. exact wire_early_reject. Qed.
+Print Assumptions C07_wire_early_reject.
+
+(* ---- the hypotheses are satisfiable on concrete, non-trivial values *)
+Theorem C07_nonvacuous :
+  parse_size (Some [x31; x6b]) = PVal 1024
+  /\ parse_size (Some [x20; x2d; x33; x6d]) = PVal (-3145728)
+  /\ parse_size (Some [x31; x4b]) = PErr
+  /\ (let cfg := mkConfig (Some [x33]) None false None None true in
+      exists s out,
+        run unit (fun q d => (q, RB d)) (fun q d => (q, RB d)) cfg (init unit tt tt)
+            [ReqHeaders FChunked false; ReqData [x61; x62]; ReqData [x63; x64]; ReqData [x65]] = (s, out, false)
+        /\ In (CSend Client (MErr ReqTooLarge)) out /\ blen (request_body_buf s) = 4)
+  /\ (let cfg := mkConfig None (Some [x32]) true None None true in
+      exists s out,
+        run unit (fun q d => (q, RB d)) (fun q d => (q, RB d)) cfg (init unit tt tt)
+            [ReqHeaders FChunked false; ReqData [x61; x62]; ReqData [x63]; ReqData [x64]; ReqEom] = (s, out, false)
+        /\ data_to Server out = [[x61; x62; x63]; [x64]] /\ req_content s = Some [x61; x62; x63; x64]).
+Proof. exact nonvacuous_examples. Qed.
 Print Assumptions C07_nonvacuous.
